@@ -533,10 +533,10 @@ def _log_jobs(tier, seed):
 
 
 for _c in range(5):
-    J(id="C18.log_rescan.case%d" % _c, prop="C18", cls="bounded", srcs=["src/common.c", "src/config.c"], stubs=LOG_STUBS, harness="harness/h_log.c", entry="h_log_rescan",
+    J(id="C18.log_rescan.case%d" % _c, prop="C18", cls="bounded", srcs=["src/common.c", "src/config.c"], stubs=LOG_STUBS + ["stubs/memcpy_loop.c"], harness="harness/h_log.c", entry="h_log_rescan",
       checks=["ptr", "shift"], defines=["LR_CASE=%d" % _c], remove_bodies=["log_parse_type_sevset", "log_message", "xrealloc"], late_stubs=["stubs/tramp_log.c", "stubs/xrealloc_small.c"],
       replaced_models=["log_parse_type_sevset", "log_message"],
-      cbmc=["--unwind", "7", "--unwinding-assertions", "--object-bits", "12", "--no-malloc-may-fail", "--unwindset", "strcasecmp.0:7,strcmp.0:7,strlen.0:8,strchr.0:8,memcpy.0:40,memset.0:1200,strcpy.0:8"],
+      cbmc=["--unwind", "7", "--unwinding-assertions", "--object-bits", "12", "--no-malloc-may-fail", "--unwindset", "strcasecmp.0:7,strcmp.0:7,strlen.0:8,strchr.0:8,memcpy.0:40,memset.0:1200,strcpy.0:8,lr_mkdest.0:9"],
       functions=["log_rescan_conf", "log_rescan_type", "log_attach_destinations", "log_destination_open", "log_destination_cleanup"],
       bound="section of two entries, concrete reading per job: %s; previous routing with one stale destination, arbitrary old reference counts" %
             ("t.>=warning -> a, t.info,warning -> b, then entry 1 edited in place", "*.* -> a, t.error -> list (b, a)", "unknown syntax + t.debug -> b, facility with a default target",
